@@ -19,8 +19,8 @@ from sismic.interpreter import Interpreter
 from sismic.model import Statechart, CompoundState, BasicState, FinalState, Transition, Event
 
 BOUNDS = {
-    'quick': {'D1': 2, 'D2': 1, 'D3': 2, 'D4': 3, 'D5': 2, 'D6': 2, 'D7': 2, 'D8': 3, 'D9': 2, 'D10': 2, 'D11': 2},
-    'thorough': {'D1': 3, 'D2': 2, 'D3': 3, 'D4': 4, 'D5': 3, 'D6': 3, 'D7': 3, 'D8': 4, 'D9': 3, 'D10': 3, 'D11': 3},
+    'quick': {'D1': 2, 'D2': 1, 'D3': 2, 'D4': 3, 'D5': 2, 'D6': 2, 'D7': 2, 'D8': 3, 'D9': 2, 'D10': 2, 'D11': 2, 'D12': 1},
+    'thorough': {'D1': 3, 'D2': 2, 'D3': 3, 'D4': 4, 'D5': 3, 'D6': 3, 'D7': 3, 'D8': 4, 'D9': 3, 'D10': 3, 'D11': 3, 'D12': 2},
 }
 _CUR = [None]
 
@@ -261,9 +261,28 @@ def D11(w):
     return [client], {'drain': []}
 
 
-DRIVERS = {'D9': D9, 'D10': D10, 'D11': D11, 'D1': D1, 'D2': D2, 'D3': D3, 'D4': D4, 'D5': D5, 'D6': D6, 'D7': D7, 'D8': D8}
+def D12(w):
+    # one and the same Event object queued three times while the runner is paused: three events
+    ev = Event('e', s=1)
+
+    def client():
+        w.op('start')
+        w.op('pause')
+        for _ in range(3):
+            w.ex.note('queue:call', 1)
+            w.it.queue(ev)
+            w.queued.append(1)
+            w.ex.note('queue:return', 1)
+        w.queue('e', 2)
+        w.op('unpause')
+        w.await_consumed(4)
+        w.op('stop')
+    return [client], {'drain': [1, 2], 'counts': {1: 3}}
+
+
+DRIVERS = {'D12': D12, 'D9': D9, 'D10': D10, 'D11': D11, 'D1': D1, 'D2': D2, 'D3': D3, 'D4': D4, 'D5': D5, 'D6': D6, 'D7': D7, 'D8': D8}
 EXECUTE_ALL = {'D5', 'D7'}
-PREINIT = {'D2', 'D3', 'D9', 'D10', 'D11'}
+PREINIT = {'D2', 'D3', 'D9', 'D10', 'D11', 'D12'}
 
 
 def run_one(dname, prefix):
@@ -308,11 +327,12 @@ def judge(ex):
             out.append(('cycle', 'after_execute received %s steps in one cycle without execute_all' % big))
     # (3) events consumed at most once / exactly once when the driver drains
     cons = w.consumed()
-    dup = [s for s, c in collections.Counter(cons).items() if c > 1]
+    counts = meta.get('counts', {})
+    dup = [s for s, c in collections.Counter(cons).items() if c > counts.get(s, 1)]
     if dup:
         out.append(('duplicate', 'events consumed more than once: %s' % dup))
     if ex.outcome == 'done':
-        missing = [s for s in meta.get('drain', []) if s not in cons]
+        missing = [s for s in meta.get('drain', []) if cons.count(s) < counts.get(s, 1)]
         if missing:
             out.append(('lost', 'events %s were queued but never consumed (consumed: %s)' % (missing, cons)))
     # (4) FIFO among immediately-due events: queue() of y returned before queue() of x was called
